@@ -139,6 +139,9 @@ func RunShardedFree(scenario string, pb, db, n, maxFree int) (*Result, error) {
 		m.Stats.Deadlocks += r.Stats.Deadlocks
 		m.Stats.Aborted += r.Stats.Aborted
 		m.Stats.Divergences += r.Stats.Divergences
+		if m.Stats.FirstDivergence == "" {
+			m.Stats.FirstDivergence = r.Stats.FirstDivergence
+		}
 		m.Stats.Stopped = m.Stats.Stopped || r.Stats.Stopped
 		m.Stats.Stuck += r.Stats.Stuck
 		if m.Stats.StuckDump == "" {
@@ -194,6 +197,11 @@ func Merge(r *report.R, m *Result) {
 	}
 	for _, s := range m.Samples {
 		r.Sample(s)
+	}
+	if m.Stats.Divergences > 0 {
+		// unowned nondeterminism is a limit of the harness on this tree, not a verdict about the property
+		r.Incomplete(fmt.Sprintf("scenario %s: %d execution(s) could not replay their recorded prefix (behaviour depends on something the harness does not own: map order, time, randomness); they were not judged and their subtrees were not explored", m.Scenario, m.Stats.Divergences))
+		fmt.Fprintf(os.Stderr, "note: %s: %d replay divergence(s); first: %s\n", m.Scenario, m.Stats.Divergences, tail(m.Stats.FirstDivergence))
 	}
 	if m.Stats.Stuck > 0 {
 		// not a verdict about the property: the search is incomplete
